@@ -1,3 +1,4 @@
+//go:build verif
 // +build verif
 
 package raft
@@ -529,21 +530,26 @@ const (
 // c20Cont is one contender executing lockDir (and what follows) step by step.
 //
 // util.go lockDir, line by line                                   step (pc)
-//   dir, err := filepath.Abs(dir)                                  0 (pure, with the next call)
-//   tempFile, err := ioutil.TempFile(dir, "lock*.tmp")             0
-//   defer { tempFile.Close(); os.Remove(tempFile.Name()) }         5, 6 (run on every return after step 0)
-//   io.WriteString(tempFile, fmt.Sprintf("%d\n", os.Getpid()))     1
-//   lockFile := filepath.Join(dir, "lock")                         2 (pure)
-//   os.Link(tempFile.Name(), lockFile)  IsExist -> ErrLockExists   2
-//   tempInfo, err := os.Lstat(tempFile.Name())                     3
-//   lockInfo, err := os.Lstat(lockFile)                            4
-//   if !os.SameFile(tempInfo, lockInfo) -> ErrLockExists           4 (pure, with the previous call)
-//   return nil                                                     6 (the caller holds the directory from here)
+//
+//	dir, err := filepath.Abs(dir)                                  0 (pure, with the next call)
+//	tempFile, err := ioutil.TempFile(dir, "lock*.tmp")             0
+//	defer { tempFile.Close(); os.Remove(tempFile.Name()) }         5, 6 (run on every return after step 0)
+//	io.WriteString(tempFile, fmt.Sprintf("%d\n", os.Getpid()))     1
+//	lockFile := filepath.Join(dir, "lock")                         2 (pure)
+//	os.Link(tempFile.Name(), lockFile)  IsExist -> ErrLockExists   2
+//	tempInfo, err := os.Lstat(tempFile.Name())                     3
+//	lockInfo, err := os.Lstat(lockFile)                            4
+//	if !os.SameFile(tempInfo, lockInfo) -> ErrLockExists           4 (pure, with the previous call)
+//	return nil                                                     6 (the caller holds the directory from here)
+//
 // storage.go SetIdentity critical section (role setID)
-//   val, err := openValue(storageDir, ".id")                       7 (real openValue)
-//   compare / ErrIdentityAlreadySet / val.set(cid, nid)            8 (real value.set)
+//
+//	val, err := openValue(storageDir, ".id")                       7 (real openValue)
+//	compare / ErrIdentityAlreadySet / val.set(cid, nid)            8 (real value.set)
+//
 // util.go unlockDir
-//   os.RemoveAll(filepath.Join(dir, "lock"))                       9 (the caller stops holding before the call)
+//
+//	os.RemoveAll(filepath.Join(dir, "lock"))                       9 (the caller stops holding before the call)
 type c20Cont struct {
 	name    string
 	dir     string
